@@ -86,6 +86,7 @@ void vf_free(void *p) { CHECK(0, "C20(alloc): readyplus never frees"); }
 #endif
 #define TA_POOLSZ (QL < 0 ? 4 : 2 * QL + 2)
 unsigned char ta_fail[1];
+unsigned char in_guard[TA_POOLSZ];      /* initial contents of the output object (guard bytes behind what was asked for) */
 static unsigned int ta_calls;
 static size_t ta_req[2];
 static char qbuf[TA_POOLSZ];
@@ -95,9 +96,12 @@ int stralloc_ready(stralloc *x, unsigned int n)      /* observing stand-in (stra
   ASSUME(ta_calls == 0);
   ta_req[ta_calls++] = n;
   if (QL < 0 || ta_fail[0]) { errno = ENOMEM; return 0; }
-  CHECK(n == TA_POOLSZ, "C20(quote): asks for exactly 2*len+2 bytes");
-  ASSUME(n == TA_POOLSZ);
-  x->s = qbuf; x->a = n;                                /* an object of exactly the size asked for */
+  CHECK(n >= QL + 2 && n <= TA_POOLSZ, "C20(quote): asks for at least len+2 and at most the worst case 2*len+2 bytes");
+  ASSUME(n >= QL + 2 && n <= TA_POOLSZ);
+  /* the object handed out has TA_POOLSZ bytes; only the first n were asked for: the rest is a guard zone with symbolic
+   * contents that must come back untouched (checked in vmain) */
+  { unsigned int g; for (g = 0; g < TA_POOLSZ; ++g) qbuf[g] = (char) in_guard[g]; }
+  x->s = qbuf; x->a = n;
   return 1;
 }
 #endif
@@ -125,6 +129,9 @@ void sym_inputs(void)
 #else
   SYM(in_len); SYM(in_a); SYM(in_n); SYM(in_alloc); SYM(in_ch);
   SYM_ARR(ta_fail);
+#if KIND == 8
+  SYM_ARR(in_guard);
+#endif
 #if KIND >= 5
   SYM(in_osz); SYM_ARR(in_old); SYM_ARR(in_src);
 #endif
@@ -245,11 +252,15 @@ void vmain(void)
   errno = 0;
   rc = doit(&saout, &sain);
   CHECK(rc == 0 || rc == 1, "C20(quote): returns 0 or 1");
-  if (ta_calls) CHECK((uint64_t) ta_req[0] == 2 * (uint64_t) in_n + 2, "C20(quote): asks for exactly 2*len+2 bytes in true arithmetic");
+  if (ta_calls) CHECK((uint64_t) ta_req[0] >= (uint64_t) in_n + 2 && (uint64_t) ta_req[0] <= 2 * (uint64_t) in_n + 2,
+                      "C20(quote): asks for between len+2 and 2*len+2 bytes in true arithmetic (no wrapped length)");
   if (rc == 1) {
     CHECK(ta_calls == 1, "C20(quote): success only after the allocation");
     for (i = 0; i < TA_POOLSZ; ++i) { if (i >= in_n) break; if (in_src[i] == '\r' || in_src[i] == '\n' || in_src[i] == '"' || in_src[i] == '\\') ++nspecial; }
     CHECK(saout.len == in_n + nspecial + 2 && saout.len <= saout.a, "C20(quote): output length is len + specials + 2, inside the allocation");
+#if QL >= 0
+    for (i = 0; i < TA_POOLSZ; ++i) if (i >= ta_req[0]) CHECK((unsigned char) qbuf[i] == in_guard[i], "C20(quote): nothing is written behind the bytes that were asked for");
+#endif
     CHECK(saout.s[0] == '"' && saout.s[saout.len - 1] == '"', "C20(quote): result is enclosed in double quotes");
     j = 1;
     for (i = 0; i < TA_POOLSZ; ++i) {
